@@ -525,7 +525,9 @@ func exec(c Case) ([]Obs, []string) {
 					if !ok {
 						bad(i, "Init returned success but recorded mountpoint %d is not mounted", r.M)
 					} else if _, was := inSet(prev.FsMap, r.M); !was {
-						if l, ok2 := inSet(w.insts[own].mounted, r.M); !ok2 || l != r.L {
+						if own < 0 || own >= len(w.insts) {
+							bad(i, "recorded mountpoint %d is owned by something that is not a filesystem built by Init", r.M)
+						} else if l, ok2 := inSet(w.insts[own].mounted, r.M); !ok2 || l != r.L {
 							bad(i, "recorded mountpoint %d restored with labels %d, recorded %d", r.M, l, r.L)
 						}
 					}
